@@ -32,6 +32,9 @@ pub fn bvhow_strategy(positions_weight: u32) -> BoxedStrategy<BvHow> {
         positions_weight => Just(BvHow::PosI64),
         1 => Just(BvHow::ZerosThenPush),
         1 => Just(BvHow::PosDup),
+        2 => any::<u8>().prop_map(BvHow::BoolsLoose),
+        positions_weight => any::<u8>().prop_map(BvHow::PosLoose),
+        1 => any::<u8>().prop_map(BvHow::ExtendPieces),
     ]
     .boxed()
 }
